@@ -295,10 +295,36 @@ def g_import(lists):
     return "(Some ([%s], [%s]))" % ("; ".join("((%d)%%Z, (%d)%%Z)" % x for x in regs), "; ".join("((%d)%%Z, %s)" % (c, "true" if a else "false") for c, a in crs))
 
 
-def gen_room_opts(r, d, idx):
+def directed_rooms(r, e, tid):
+    """a room list that just covers the places LEFT in every course of the track (max_size minus the registrations already assigned to it): with
+    --ignore-assigned the rooms then have to take the pre-assigned people as well -- at least as many rooms as courses"""
+    part = [pid for pid, p in e["event"]["parts"].items() if str(tid) in p["tracks"]]
+    if not part:
+        return None
+    part = part[0]
+    left = []
+    for cid, c in e["courses"].items():
+        if str(tid) not in c.get("segments", {}):
+            continue
+        mx = c.get("max_size")
+        mx = mx if isinstance(mx, int) and not isinstance(mx, bool) and mx >= 0 else 25
+        pre = sum(1 for g in e["registrations"].values()
+                  if (g["parts"].get(part) or {}).get("status") == 2 and (g["tracks"].get(str(tid)) or {}).get("course_id") == int(cid))
+        left.append(max(mx - pre, 0))
+    if not left or max(left) > 12:
+        return None
+    b = max(left) + r.choice([0, 0, 1])
+    return [b] * (len(left) + r.randint(0, 1))
+
+
+def gen_room_opts(r, d, idx, ex=None, tid=None):
     """room options of an end-to-end run: (args, rooms_arg) with rooms_arg = ('list', sizes) | ('file', kinds in file order), and the
     name of the possible-rooms field (or None)"""
     field = "raum" if r.random() < 0.7 else None
+    if ex is not None and tid is not None and r.random() < 0.35:
+        sizes = directed_rooms(r, ex, tid)
+        if sizes:
+            return ["--rooms", ",".join(map(str, sizes))] + (["--possible-rooms-field", field] if field else []), ("list", sizes), field
     if r.random() < 0.5:
         sizes = [r.choice([0, 1, 2, 3, 4, 5, 6, 8, 12]) for _ in range(r.randint(1, 9))]
         return ["--rooms", ",".join(map(str, sizes))] + (["--possible-rooms-field", field] if field else []), ("list", sizes), field
@@ -306,6 +332,15 @@ def gen_room_opts(r, d, idx):
     for k in range(r.randint(0, 5)):
         kinds.append({"name": r.choice(["Saal", "Raum", "H\u00f6rsaal", "K", "Zelt \u00df"]) + " %d" % k, "capacity": r.choice([0, 1, 2, 3, 4, 5, 6, 8, 12]),
                       "quantity": r.choice([0, 1, 1, 2, 3])})
+    if kinds and r.random() < 0.3:
+        # a kind given twice (same name, same capacity) ...
+        k0 = dict(r.choice(kinds))
+        k0["quantity"] = r.choice([1, 1, 2])
+        kinds.insert(r.randint(0, len(kinds)), k0)
+    if len(kinds) >= 2 and r.random() < 0.2:
+        # ... and namesakes of different capacity
+        for k in kinds:
+            k["name"] = "Raum"
     fp = os.path.join(d, "rooms_%05d.json" % idx)
     json.dump(kinds, open(fp, "w", encoding="utf-8"), ensure_ascii=False)
     return ["--rooms-file", fp] + (["--possible-rooms-field", field] if field else []), ("file", kinds), field
@@ -338,7 +373,8 @@ def e2e_cases(ctx, seed, count, binpath, opts_fn=None, dense_assign=True, thread
                 args += ffof
             rinfo = None
             if rooms:
-                rargs, rarg, rfield = gen_room_opts(r, d, len(tasks))
+                tid_ = track if track is not None else (ex["tracks"][0][0] if len(ex["tracks"]) == 1 else None)
+                rargs, rarg, rfield = gen_room_opts(r, d, len(tasks), ex["export"], tid_)
                 args += rargs
                 rinfo = {"rooms_arg": rarg, "field": rfield, "ff": "rf" if "--room-factor-field" in ffof else None,
                          "of": "ro" if "--room-offset-field" in ffof else None}
